@@ -139,43 +139,8 @@ func runC11(c *core.Ctx) {
 		c.Check(ok, key, p.Pos(s.w.Instr.Pos()), why, fmt.Sprintf("node storage %s.%s is written by %s, which is not a builder/assembler: a finished node can change after it was returned", s.hit.Struct.Obj().Name(), s.hit.Field, core.FuncKey(s.fn)))
 	}
 
-	c.Rule("C11.reset", "a NodeBuilder's Reset writes only the builder's own fields (re-pointing its work-in-progress pointer to a fresh allocation); it performs no write that goes through a pointer loaded from the builder (the node built so far stays untouched)", 10)
-	nbIface := p.Iface("datamodel", "NodeBuilder")
-	for _, im := range p.Implementers(nbIface, func(rel string) bool { return libraryPkg(rel) && rel != "node/bindnode" }) {
-		fn := p.Method(im.Type(), "Reset")
-		if fn == nil || len(fn.Blocks) == 0 {
-			continue
-		}
-		// follow promoted wrappers to the declared method
-		bad := ""
-		for _, g := range append([]*ssa.Function{fn}, staticCalleesIn(fn, 2)...) {
-			for _, w := range p.LocalEffects(g).Writes {
-				if w.Class == core.RootFresh {
-					continue
-				}
-				if w.Loads > 0 {
-					bad = fmt.Sprintf("%s writes %s through a pointer loaded from the builder", core.FuncKey(g), fieldDesc(w))
-				}
-				if w.Kind != "store" {
-					bad = fmt.Sprintf("%s performs %s on builder-reachable storage", core.FuncKey(g), w.Kind)
-				}
-			}
-			// slicing the old storage to length zero and keeping it
-			core.Instrs(g, func(in ssa.Instruction) {
-				if st, ok := in.(*ssa.Store); ok {
-					for v := range core.BackSlice(st.Val, core.SliceOpts{}) {
-						if sl, ok := v.(*ssa.Slice); ok {
-							_ = sl
-							if cw := classifyLoaded(sl.X); cw {
-								bad = core.FuncKey(g) + " keeps (a reslice of) the old node's storage"
-							}
-						}
-					}
-				}
-			})
-		}
-		c.Check(bad == "", core.FuncKey(fn)+"#reset", p.Pos(fn.Pos()), "Reset only re-points the builder", bad)
-	}
+	c.Rule("C11.reset", resetText, 10)
+	checkReset(c)
 
 	c.Rule("C11.sealed", "in every assembler AssignNode that copies a same-type node by value into its work-in-progress node (sharing slices and maps), every path from that copy to a return stores the finished state (the constant Finish stores) into the assembler's state field", 2)
 	naIface := p.Iface("datamodel", "NodeAssembler")
@@ -241,6 +206,38 @@ func runC11(c *core.Ctx) {
 			isRet := func(in ssa.Instruction) bool { _, ok := in.(*ssa.Return); return ok }
 			path, reached := core.Reach(fn, cp, isRet, nil, isSeal)
 			c.Check(!reached, core.FuncKey(fn)+"#sealed", p.Pos(cp.Pos()), "structure-sharing copy is immediately sealed", "after sharing another node's slices/maps by value copy a return is reachable without the assembler being marked finished: the builder can go on appending into storage shared with a finished node", p.Witness(path)...)
+		}
+	}
+
+	c.Rule("C11.decoderbytes", "the byte slices (and strings) that the bundled decoders hand to AssignBytes never come out of storage the codec keeps and reuses: the value does not derive from a sync.Pool, a package-level variable or a captured buffer (basicnode keeps the slice without copying, so a recycled buffer would change a finished node)", 3)
+	for _, fn := range p.ModFns {
+		pk := core.FuncPkg(fn)
+		if pk == nil || !strings.HasPrefix(core.RelPkg(pk.Path()), "codec") || len(fn.Blocks) == 0 {
+			continue
+		}
+		n := 0
+		for _, ci := range core.Calls(fn) {
+			name, ok := assemblerCall(ci)
+			if !ok || name != "AssignBytes" {
+				continue
+			}
+			n++
+			bad := ""
+			for w := range core.BackSlice(ci.Common().Args[0], core.SliceOpts{ThroughCalls: true, Stores: true}) {
+				switch x := w.(type) {
+				case *ssa.Call:
+					if core.IsMethod(x, "sync", "Pool", "Get") {
+						bad = "a sync.Pool"
+					}
+				case *ssa.Global:
+					if p.InModuleGlobal(x) {
+						bad = "package-level variable " + x.Name()
+					}
+				case *ssa.FreeVar:
+					bad = "a captured variable"
+				}
+			}
+			c.Check(bad == "", fmt.Sprintf("%s#AssignBytes%d", core.FuncKey(fn), n), p.Pos(ci.Pos()), "assigned bytes are owned by the decode call", "the bytes handed to the assembler come from "+bad+": the buffer is reused by a later decode while the finished node still refers to it")
 		}
 	}
 
@@ -531,4 +528,48 @@ func reflectTargetFresh(ci ssa.CallInstruction) bool {
 		}
 	}
 	return fresh && !foreign
+}
+
+const resetText = "a NodeBuilder's Reset writes only the builder's own fields (re-pointing its work-in-progress pointer to a fresh allocation); it performs no write that goes through a pointer loaded from the builder (the node built so far stays untouched)"
+
+// checkReset is shared by C11 and C01 (a reused builder must not alias the node it built before).
+func checkReset(c *core.Ctx) {
+	p := c.P
+	nbIface := p.Iface("datamodel", "NodeBuilder")
+	for _, im := range p.Implementers(nbIface, func(rel string) bool { return libraryPkg(rel) && rel != "node/bindnode" }) {
+		fn := p.Method(im.Type(), "Reset")
+		if fn == nil || len(fn.Blocks) == 0 {
+			continue
+		}
+		// follow promoted wrappers to the declared method
+		bad := ""
+		for _, g := range append([]*ssa.Function{fn}, staticCalleesIn(fn, 2)...) {
+			for _, w := range p.LocalEffects(g).Writes {
+				if w.Class == core.RootFresh {
+					continue
+				}
+				if w.Loads > 0 {
+					bad = fmt.Sprintf("%s writes %s through a pointer loaded from the builder", core.FuncKey(g), fieldDesc(w))
+				}
+				if w.Kind != "store" {
+					bad = fmt.Sprintf("%s performs %s on builder-reachable storage", core.FuncKey(g), w.Kind)
+				}
+			}
+			// slicing the old storage to length zero and keeping it
+			core.Instrs(g, func(in ssa.Instruction) {
+				if st, ok := in.(*ssa.Store); ok {
+					for v := range core.BackSlice(st.Val, core.SliceOpts{}) {
+						if sl, ok := v.(*ssa.Slice); ok {
+							_ = sl
+							if cw := classifyLoaded(sl.X); cw {
+								bad = core.FuncKey(g) + " keeps (a reslice of) the old node's storage"
+							}
+						}
+					}
+				}
+			})
+		}
+		c.Check(bad == "", core.FuncKey(fn)+"#reset", p.Pos(fn.Pos()), "Reset only re-points the builder", bad)
+	}
+
 }
